@@ -17,7 +17,7 @@ func init() {
 	property("C12",
 		"Static conformance of poryswitch selection: (a) every selector returns, for each case map, the entry under the -s value when that key is present and otherwise the entry under '_' (presence decided by the comma-ok bit, not by the value), parallel maps with the same key sequence, and fails under enableEnvironmentErrors when neither exists; (b) the header takes the value from compileSwitches[identifier] and errors for missing switches only under enableEnvironmentErrors; (c) parsing the cases can write only the token window, the scope stacks and the font cache of the Parser — nothing an unselected case produced can reach the program except through the case map; (d) '-s K=V' splits at the first '='. The -s map is written only by Set (C12.d); the font table is read-only (C17.g); item parsers are told \"multiple\" exactly for the brace form (C12.e); no parser-held map is written while cases are parsed (C12.c).",
 		[]string{"scheme argument of DESIGN §4 C12", "balanced scope stacks (C20.a)"},
-		"C12.a", "C12.b", "C12.c", "C12.d", "C12.e", "C09.d", "C06.c", "C12.f", "C12.g", "C01.h", "C17.f", "C17.g", "C20.a", "C18.m", "C06.f", "C18.d", "C18.n")
+		"C12.a", "C12.b", "C12.c", "C12.d", "C12.e", "C09.d", "C06.c", "C12.f", "C12.g", "C01.h", "C17.f", "C17.g", "C20.a", "C18.m", "C06.f", "C18.d", "C18.n", "C19.b", "C19.c", "C19.d", "C19.e", "C14.d", "C05.a")
 	property("C13",
 		"Static conformance of constant substitution: (a) every token literal that is accumulated into an argument, operand, comparison value, case value, table-entry field, mart item or constant value passes through tryReplaceWithConstant (the only exceptions are literal parentheses); (b) names (identifiers, labels, map script names, movement steps) and text are never passed through it; (c) a constant is stored only after the duplicate check, its value is scanned up to the next top-level keyword; (d) the helper is a pure lookup that returns its argument when the name is not a constant. Gathering loops write every token and one space exactly between tokens (C13.f); a substitution result only ever becomes an element of a space-joined value (C13.b).",
 		[]string{"that textual and token-wise replacement coincide for multi-token values is not decided"},
@@ -25,7 +25,7 @@ func init() {
 	property("C14",
 		"Static conformance of list handling: (a) a movement multiplier is accepted exactly in [1, 9999], must be an INT, and expands to exactly that many copies; (b) the movement emitter writes the terminator exactly once on every path and nothing after it; (c) the mart emitter writes '.align 2' first, stops at the first item equal to ITEM_NONE — tested on the very value it would write — and writes the terminator once, unconditionally, after the loop; items and their tokens are parallel; (d) list parsers append each identifier once and advance on every iteration. Integer tokens are decoded with ParseInt(literal, 0, 64) (C14.e); allocation sizes are bounded (C18.k); the expansion appends the step token itself (C14.a); Emit is total (C10.f).",
 		[]string{"go/ssa lowering is faithful to the source"},
-		"C14.a", "C14.b", "C14.c", "C14.d", "C06.b", "C12.f", "C12.g", "C13.c", "C12.a", "C10.f", "C19.f", "C18.k", "C14.e", "C01.h", "C13.a", "C08.e", "C10.g", "C18.m", "C06.a", "C06.c", "C12.e", "C18.d", "C18.n")
+		"C14.a", "C14.b", "C14.c", "C14.d", "C06.b", "C12.f", "C12.g", "C13.c", "C12.a", "C10.f", "C19.f", "C18.k", "C14.e", "C01.h", "C13.a", "C08.e", "C10.g", "C18.m", "C06.a", "C06.c", "C12.e", "C18.d", "C18.n", "C19.b", "C19.c", "C19.d", "C19.e")
 
 	register(&Rule{ID: "C12.f", Doc: "every parsed poryswitch case is recorded under its own name, whatever its content", Floor: 5, Run: c12f})
 	register(&Rule{ID: "C13.e", Doc: "no decision depends on how many tokens a substituted value was written with", Floor: 1, Run: c13e})
